@@ -134,6 +134,7 @@ M = [
     ("m68", CORE, "        return initial_values.astype(jnp.result_type(float))\n", "        return initial_values\n", ["C06", "C09", "C20"]),
     ("m69", CORE, "        # Set up precision (before any array is created)\n        self.jax_double_precision = self.config.jax_double_precision\n        if self.jax_double_precision:\n            jax.config.update(\"jax_enable_x64\", True)\n\n        # Store core attributes\n        self.gamma = jnp.array(self.config.gamma)\n",
      "        self.gamma = jnp.array(self.config.gamma)\n        self.jax_double_precision = self.config.jax_double_precision\n        if self.jax_double_precision:\n            jax.config.update(\"jax_enable_x64\", True)\n", ["C03"]),
+    ("m70", BP, "        max_batch_size = operator.index(max_batch_size)\n", "", ["C18"]),
     ("m63", LG, "    decimal_places = max(min(decimal_places, max_decimals), 0)", "    decimal_places = min(decimal_places, max_decimals)", ["C20"]),
     # ---------------- negative controls (property-preserving refactors)
     ("n01", RVI, "        self.gain = new_values[-1]\n", "        self.gain = new_values[0]\n", ["C04", "C08", "C03"]),
